@@ -38,6 +38,7 @@ def setup(rep, tier):
     rep.minimum('R07.7', 2)
     rep.minimum('R07.8', 2)
     rep.minimum('R07.9', 1)
+    rep.minimum('R07.10', 1)
 
 
 def rooted_at_param(f, lv, pidx):
@@ -557,7 +558,41 @@ def r07_9(rep, prog):
         rep.holds('R07.9', inst, f.where(), '%d return sites: BAD_ARG, BUFFER_TOO_SMALL, the generator\'s result, the size' % n)
 
 
+# ------------------------------------------------------------------ R07.10
+def r07_10(rep, prog):
+    """the documented sufficient output size - 1277 bytes per selected frame - covers frames, TOC / count / length bytes
+    and nothing else.  If the size out_range_impl needs also grows with the extension bytes it carries over from the
+    STORED padding of the input packets (not only with extensions the caller passes in), 1277 x frames no longer
+    suffices for packets that cat() accepted."""
+    from .. import decide
+    f = prog.fn('opus_repacketizer_out_range_impl')
+    rep.functions.add(f.name)
+    tot = [l for l in f.locals.values() if l['name'] == 'tot_size']
+    inst = '%s:1277 bytes per selected frame suffice for opus_repacketizer_out_range_impl' % prog.config
+    if not tot:
+        rep.unresolved('R07.10', inst + ': tot_size not found')
+        return
+    seen, calls, work = set(), set(), [['local', 'tot_size', tot[0]['id']]]
+    while work:
+        x = work.pop()
+        for y in sx.walk(x):
+            if sx.kind(y) == 'call':
+                calls.add(sx.callee_name(y))
+            if sx.kind(y) == 'local' and y[2] not in seen:
+                seen.add(y[2])
+                for n in f.all_nodes():
+                    if n[0] in ('assign', 'cassign') and sx.key(sx.strip(n[1] if n[0] == 'assign' else n[2])) == ('local', y[2]):
+                        work.append(n[2] if n[0] == 'assign' else n[3])
+    carries = any(sx.callee_name(c) == 'opus_packet_extensions_parse' and any(sx.kind(y) == 'field' and y[3] == 'paddings' for a in c[2] for y in sx.walk(a)) for c in f.calls())
+    if 'opus_packet_extensions_generate' in calls and carries:
+        rep.violated('R07.10', inst, f.where(), 'tot_size depends on the result of opus_packet_extensions_generate over extensions parsed from the stored padding: a 1275-byte frame with a 9-byte extension region needs 1287 bytes, '
+                     'so out(maxlen = 1277) returns OPUS_BUFFER_TOO_SMALL', key='1277-bound-with-extensions')
+    else:
+        rep.holds('R07.10', inst, f.where(), 'the size does not depend on carried-over extension bytes')
+
+
 def check(rep, prog, tier):
+    r07_10(rep, prog)
     r07_9(rep, prog)
     r07_78(rep, prog)
     r07_5(rep, prog)
